@@ -7,7 +7,8 @@ import warnings, itertools
 from fractions import Fraction
 import kv, algs, opcorr as oc
 
-RULE = ('for every operator (binary, unary, composite, inverse/division, series): a random element, all permutations of its key '
+RULE = ('[every 12th case: inv / div of 2-3 blades of one grade in 4-D (5-D in thorough)] '
+        'for every operator (binary, unary, composite, inverse/division, series): a random element, all permutations of its key '
         'tuple (<=4 keys, else 6 random ones), 3 random zero-padded supersets and both full layouts (canonical, binary), applied to '
         'each operand; results compared blade by blade (exactly for integer/Fraction coefficients, to 1e-9 for sqrt/exp and the outer exponential family, whose generated code contains float constants). '
         'Non-trivial = the re-stored operand differs from the original; distinct = distinct (algebra, operator, layouts).')
@@ -84,10 +85,15 @@ def run(R, tier):
     for i in range(n):
         heavy = i % 3 == 0
         d = rng.choice((1, 2, 3)) if heavy else rng.choice((2, 3, 3, 4, 4, 5))
+        hi_inv = heavy and i % 12 == 0          # inverse / division of pure-grade and sparse operands in 4-D (5-D: thorough)
+
         if rng.random() < 0.15 and d >= 2:
             spec = {'sig': [rng.choice((1, -1, 0)) for _ in range(d)], 'basis': algs.random_basis(rng, d)}
         else:
             spec = {'sig': [rng.choice((1, -1, 1, -1, 0)) for _ in range(d)], 'start': rng.choice((None, 0, 1))}
+        if hi_inv:
+            d = 4 if tier == 'quick' else rng.choice((4, 4, 5))
+            spec = {'sig': [rng.choice((1, -1)) for _ in range(d)], 'start': None}
         key = repr(spec)
         if key not in cache:
             cache[key] = algs.make_impl(spec)
@@ -97,11 +103,26 @@ def run(R, tier):
         if heavy:
             ops = [(o, 2) for o in COMPOSITE_BIN] + [(o, 1) for o in COMPOSITE_UN] + [('sqrt', 1), ('exp', 1)]
         rng.shuffle(ops)
+        if hi_inv:
+            ops = [('inv', 1), ('div', 2)]
         for op, ar in ops[:6 if tier == 'quick' else 10]:
             style = rng.choice(['sparse', 'grade', 'single']) if heavy else None
             ka, _ = oc.random_keys(rng, alg, style)
             kb, _ = oc.random_keys(rng, alg, style)
             ka, kb = ka[:6], kb[:6]
+            if hi_inv:                 # two or three blades of one grade (in general not a simple blade)
+                g = rng.choice((2, 2, 1, 3))
+                gk = list(alg.indices_for_grade[g])
+                pick = tuple(rng.sample(gk, min(len(gk), rng.randint(2, 3))))
+                if rng.random() < 0.6:     # a blade and its complement within the grade: never a simple blade
+                    k0 = rng.choice(gk)
+                    comp = [k for k in gk if k & k0 == 0]
+                    if comp:
+                        pick = (k0, rng.choice(comp))
+                if op == 'inv':
+                    ka = pick
+                else:
+                    kb = pick
             if heavy:
                 vals = lambda m: [Fraction(v) for v in oc.random_values(rng, m, zero_p=0.0)]
             else:
